@@ -82,8 +82,36 @@ CHARGE = {("tc", "feed"), ("tc", "biofuel")}
 PINNED = ("tc", "min_human_food_consumption")
 
 
+POPULATION_DEPENDENT_CONVERSIONS = ("in_units_percent_fed", "in_units_billions_fed", "in_units_kcals_equivalent", "in_units_kcals_grams_grams_per_person",
+                                    "in_units_kcals_grams_grams_per_person_from_ratio", "in_units")
+
+
+def reads_only_inputs(index, rep):
+    """scale clause, who-may-read part: the programme is built from consts_for_optimizer / time_consts alone.  A coefficient obtained from the
+    process-wide conversion settings (Food.conversions, a population-dependent in_units_* conversion) is the population of whichever run
+    configured them last, not the population the programme is scaled with"""
+    rule = "C12.SCALE"
+    from .lpdb import OPT
+    import ast as _ast
+    cls = index.cls(OPT, "Optimizer")
+    bad = []
+    for n in _ast.walk(cls):
+        if isinstance(n, _ast.Attribute) and n.attr == "conversions":
+            bad.append((n, "reads .conversions"))
+        if isinstance(n, _ast.Call) and isinstance(n.func, _ast.Attribute) and n.func.attr in POPULATION_DEPENDENT_CONVERSIONS:
+            bad.append((n, f"calls {n.func.attr}()"))
+    from .core import loc as _loc
+    rep.check(not bad, rule, "optimizer:coefficients-from-its-inputs-only",
+              "the LP builder takes a number from the process-wide unit-conversion settings (" + "; ".join(sorted({w for _, w in bad})) +
+              "): that is the population of the run that configured them last, not consts_for_optimizer's - scaling population and supplies together "
+              "(or an earlier run in the same process) changes the result", loc=_loc(OPT, bad[0][0]) if bad else OPT)
+
+
 def run(index, rep, db=None):
-    db = db or build_all(index)
+    rep.guard(reads_only_inputs, index, rep)
+    db = db or rep.guard(build_all, index)
+    if db is None:
+        return None
     rep.note_analysed("optimizer_templates", len(db.templates))
     rep.guard(scale, db, rep)
     rep.guard(sign, db, rep)
